@@ -129,6 +129,12 @@ func checkC08(c *Ctx) {
 		"new/model/m.go": "package model\n\ntype Item struct {\n\tK string\n\tP *int\n}\n\ntype Items []Item\n\ntype ID string\n",
 		"p/p.go":         "package p\n\nimport (\n\tnewmodel \"scratch/new/model\"\n\toldmodel \"scratch/old/model\"\n)\n\nfunc e(a, b oldmodel.Items) bool { return deriveEqual(a, b) }\n\nfunc d(a, b newmodel.Items) { deriveDeepCopy(a, b) }\n\nfunc h(a oldmodel.Item) uint64 { return deriveHash(a) }\n\nfunc c(a, b newmodel.Item) int { return deriveCompare(a, b) }\n\nfunc g(a newmodel.Items) string { return deriveGoString(a) }\n\nfunc k(m map[oldmodel.ID]newmodel.ID) []oldmodel.ID { return deriveSort(deriveKeys(m)) }\n\nfunc cl(a oldmodel.Items) oldmodel.Items { return deriveClone(a) }\n\nfunc u(l []newmodel.ID) []newmodel.ID { return deriveUnique(l) }\n"},
 		tierN(c, 32, 128), []string{"./p"}})
+	// one plugin, two functions whose parameter lists are assignable but not identical (an implementation
+	// and the interface it satisfies; a channel and its receive-only view), the specific one first in the
+	// source and the general one with the smaller name
+	reps = append(reps, rep{"assignable", map[string]string{"go.mod": pgen.GoMod,
+		"p/p.go": "package p\n\ntype NotFound struct{ Key string }\n\nfunc (e *NotFound) Error() string { return e.Key }\n\nfunc t1(n int, e *NotFound) func() (int, *NotFound) { return deriveTupleNotFound(n, e) }\n\nfunc t2(n int, e error) func() (int, error) { return deriveTupleErr(n, e) }\n\nfunc d1(c chan int) (<-chan int, <-chan int) { return deriveDupZ(c) }\n\nfunc d2(c <-chan int) (<-chan int, <-chan int) { return deriveDupA(c) }\n"},
+		tierN(c, 48, 160), []string{"./p"}})
 
 	for _, rp := range reps {
 		sums := make([]string, rp.n)
@@ -177,7 +183,7 @@ func checkC08(c *Ctx) {
 
 	// ---- invocation variants ----------------------------------------------------------------------
 	mod := map[string]string{"go.mod": pgen.GoMod,
-		"a/a.go":   "package a\n\nimport \"scratch/px\"\n\ntype A struct {\n\tX px.P\n\tL []px.P\n}\n\nfunc eq(a, b *A) bool { return deriveEqual(a, b) }\n\nfunc h(a *A) uint64 { return deriveHash(a) }\n\nfunc c(a, b *A) int { return deriveCompare(a, b) }\n",
+		"a/a.go":   "package a\n\nimport \"scratch/px\"\n\ntype A struct {\n\tX px.P\n\tL []px.P\n}\n\nfunc eq(a, b *A) bool { return deriveEqual(a, b) }\n\nfunc h(a *A) uint64 { return deriveHash(a) }\n\nfunc c(a, b *A) int { return deriveCompare(a, b) }\n\n// hand-written functions named like the first helpers goderive would mint (reserved in THIS package only)\nfunc deriveEqual_(x int) int { return x }\n\nfunc deriveHash_(x int) int { return x }\n\nfunc deriveCompare_(x int) int { return x }\n\nvar _ = deriveEqual_(1) + deriveHash_(1) + deriveCompare_(1)\n",
 		"px/px.go": "package px\n\ntype Label string\n\ntype P struct {\n\tN Label\n\tq []int\n}\n\nfunc eq(a, b *P) bool { return deriveEqual(a, b) }\n\nfunc cl(a *P) *P { return deriveClone(a) }\n\nfunc s(a struct {\n\tN Label\n\tM []int\n}) uint64 {\n\treturn deriveHash(a)\n}\n",
 		"d/d.go":   "package d\n\nimport (\n\t\"scratch/a\"\n\t\"scratch/px\"\n)\n\ntype D struct {\n\tA *a.A\n\tM map[string]px.P\n}\n\nfunc eq(x, y *D) bool { return deriveEqual(x, y) }\n\nfunc g(x *D) *D { return deriveClone(x) }\n\nfunc s(a, b struct {\n\tN px.Label\n\tM []int\n}) bool {\n\treturn deriveEqualS(a, b)\n}\n",
 		"z/z.go":   "package z\n\ntype Z struct{ K map[int][]string }\n\nfunc ks(z *Z) []int { return deriveSort(deriveKeys(z.K)) }\n\nfunc e(a, b *Z) bool { return deriveEqual(a, b) }\n",
@@ -206,6 +212,10 @@ func checkC08(c *Ctx) {
 			}
 		}
 		variants = append(variants, variant{"mixed-spelling-" + strings.Join(p, ","), [][]string{p}})
+	}
+	for i := 0; i < tierN(c, 8, 32); i++ {
+		// the loader hands packages over in map order: the same grouped invocation is repeated
+		variants = append(variants, variant{fmt.Sprintf("dotdotdot-repeat-%d", i), [][]string{{"./..."}}})
 	}
 	variants = append(variants, variant{"subset-d-then-rest", [][]string{{"./d"}, {"./px", "./a"}, {"./z"}}})
 	variants = append(variants, variant{"subset-importpath-pairs", [][]string{{"scratch/px", "scratch/d"}, {"scratch/a", "./z"}}})
